@@ -56,7 +56,8 @@ Good(r) ==
          /\ r.str = r.repr \/ Bad(r, "int/str", 0)
     [] r.op = "float" ->
          /\ (r.back.ok /\ r.back.v.t = "float" /\ FSame(r.back.v, r.v)) \/ Bad(r, "float/roundtrip", 0)
-         /\ FloatReprOK(r.repr, r.v) \/ Bad(r, "float/decimal-denotes-value", 0)
+         \* r.dec: judged by the exact decimal oracle; otherwise the text must at least be a float literal
+         /\ (IF r.dec THEN FloatReprOK(r.repr, r.v) ELSE FloatSyntaxOK(r.repr, r.v)) \/ Bad(r, "float/decimal-denotes-value", 0)
          /\ r.str = r.repr \/ Bad(r, "float/str", 0)
     [] r.op = "tree" ->
          /\ (r.back.ok /\ Same(r.back.v, r.v)) \/ Bad(r, "tree/roundtrip", 0)
